@@ -311,6 +311,7 @@ fn run_a(c: &mut Case, big: bool) {
     let status = *c.rng.pick(&crate::handler::STATUSES);
     let do_close = c.rng.chance(2, 3);
     let close_result: Arc<Mutex<Option<Result<(), String>>>> = Arc::new(Mutex::new(None));
+    let abandoned_reads = Arc::new(AtomicUsize::new(0));
 
     let mut exec = Exec::new();
     for (k, (_, w)) in specs.into_iter().enumerate() {
@@ -321,10 +322,30 @@ fn run_a(c: &mut Case, big: bool) {
         let done = done.clone();
         let close_result = close_result.clone();
         let mut req = req;
+        // (abandoning a half-flushed reply is only complete once close() has finished it)
+        let abandon = do_close && c.rng.chance(1, 3);
+        let abandoned = abandoned_reads.clone();
         exec.spawn(Box::pin(async move {
+            use std::future::Future;
             // read the request so that management replies are flushed through poll_output
             let mut buf = [0u8; 33];
             loop {
+                if abandon && done.left.load(Ordering::SeqCst) == 0 {
+                    // all writers are finished: poll the read once and abandon it if it is not ready
+                    // (a reply may be half-flushed at this point); close() must still finish it
+                    let r = {
+                        let mut fut = req.read(&mut buf);
+                        std::future::poll_fn(|cx| Poll::Ready(Pin::new(&mut fut).poll(cx))).await
+                    };
+                    match r {
+                        Poll::Ready(Ok(0) | Err(_)) => break,
+                        Poll::Ready(Ok(_)) => continue,
+                        Poll::Pending => {
+                            abandoned.fetch_add(1, Ordering::SeqCst);
+                            break;
+                        }
+                    }
+                }
                 match req.read(&mut buf).await {
                     Ok(0) | Err(_) => break,
                     Ok(_) => {}
@@ -437,6 +458,7 @@ fn run_a(c: &mut Case, big: bool) {
             c.l.add("transport_pending_writes", p.pending_writes);
             c.l.add("successful_writes", wl.iter().map(|(_, l)| l.done.len() as u64).sum());
             c.l.add("retries_with_grown_buffer", wl.iter().map(|(_, l)| l.grown_retries).sum());
+            c.l.add("reads_abandoned_before_close", abandoned_reads.load(Ordering::SeqCst) as u64);
             c.l.count("runs_checked");
             let mut h = beh.class();
             for o in &all_ops {
@@ -557,6 +579,7 @@ pub fn run(ctx: &Ctx, evidence: Option<&PathBuf>) -> i32 {
     ctx.gate("management_replies_between_stream_records", 20);
     ctx.gate("thread_runs_checked", 10);
     ctx.gate("retries_with_grown_buffer", 50);
+    ctx.gate("reads_abandoned_before_close", 20);
     ctx.finish(
         "exploration",
         "Run A (deterministic): Request::new + 1..3 StreamWriters (stdout, stderr, a clone) each on its own executor task issuing single poll_write calls of {0,1,7,8,9,16,255,1000,4096,65535,65536,100000} bytes and poll_flush, \
